@@ -14,3 +14,12 @@ Definition run_gcno (gcno_buf : bytes) (gcdas : list bytes) (br : bool) := show_
 Definition class_gcno (gcno_buf : bytes) (gcdas : list bytes) (br : bool) : N := (run_gcno gcno_buf gcdas br).1.
 
 From Grcov Require Export Model.GcnoFlow.
+(* hypothesis of C15_k_copies_scale_wrap on a concrete input *)
+Definition run_no_overflow (gcno_buf : bytes) (gcdas : list bytes) (br : bool) : bool := no_overflow_b gcno_buf gcdas br.
+(* decoded graph after counting, for analysis: per function (name, arcs (src,dst,flags,count), blocks (lines,count)) *)
+Definition run_dump (gcno_buf : bytes) (gcdas : list bytes) :=
+  match (let* g := read_gcno gcno_buf in let* g1 := ofold (read_gcda wrap64) gcdas g in stop wrap64 g1) with
+  | Ok g2 => map (fun f => (f_name f, map (fun e => (e_src e, e_dst e, e_flags e, e_counter e)) (f_edges f),
+                            map (fun b => (b_lines b, b_counter b)) (f_blocks f))) (g_funs g2)
+  | _ => []
+  end.
